@@ -224,6 +224,13 @@ def handler_atomic(ctx, R, select=None, tag="handler"):
                     succ = [t["t"]] if t["t"] >= 0 else []
                 if c in muts:
                     msites.append((i, c, succ))
+            elif c.startswith("storage::") and not c.startswith("storage::commands::") and \
+                    re.match(r"^std::(result::Result|option::Option)<", b.locals[t["d"]["l"]] or ""):
+                # result of a storage-layer object (Stream, SkipList, ConsumerGroup ...): its
+                # failure edge is a storage refusal, not an argument validation
+                rs = shared.result_switch(b, i)
+                if rs:
+                    fail_starts += rs["fail"]
         if not msites:
             R.trivial()
             continue
